@@ -1447,6 +1447,132 @@ theorem mayLossTail_spec (m : BufMap) (A B0 T : List Run) (nis : Bool) (pre0 : C
     rw [hsp]
     rfl
 
+/-! ### from the computed list to the canonical one, and its colours -/
+
+theorem colourAt_prefix_congr (P X Y : List Run) (x : Nat) (h : ∀ p, colourAt X p x = colourAt Y p x) :
+    ∀ p, colourAt (P ++ X) p x = colourAt (P ++ Y) p x := by
+  induction P with
+  | nil => exact h
+  | cons r P ih =>
+    intro p
+    obtain ⟨o, c⟩ := r
+    simp only [List.cons_append, colourAt]
+    split
+    · rfl
+    · exact ih c
+
+/-- keeping only the first run of a block `M` of `Lost` runs, below a prefix -/
+theorem act_canon (Pre M S : List Run) (hM : ∀ r ∈ M, r.2 = Colour.lost) (hs : Sorted (Pre ++ (M ++ S))) :
+    Sorted (Pre ++ (M.take 1 ++ S)) ∧ (∀ r ∈ Pre ++ (M.take 1 ++ S), r ∈ Pre ++ (M ++ S)) ∧
+      ∀ p x, colourAt (Pre ++ (M.take 1 ++ S)) p x = colourAt (Pre ++ (M ++ S)) p x := by
+  rw [loss_sorted_append] at hs
+  obtain ⟨h1, h2, h3⟩ := hs
+  obtain ⟨t1, t2, t3⟩ := take1_spec M S hM h2
+  refine ⟨loss_sorted_append.mpr ⟨h1, t1, fun a ha b hb => h3 a ha b (t2 b hb)⟩, ?_, ?_⟩
+  · intro r hr
+    rw [List.mem_append] at hr ⊢
+    rcases hr with h | h
+    · exact Or.inl h
+    · exact Or.inr (t2 r h)
+  · intro p x
+    exact colourAt_prefix_congr Pre _ _ x (fun p => t3 p x) p
+
+/-- colours of the canonical result of the `may_loss` tail: the run list is (colour-equivalent to)
+`P ++ (a, c0) :: (L ++ R)` with `c0` Flighting or Lost, the result is
+`P ++ (a, lost) :: (K ++ (optional end ++ C))`. -/
+theorem tail_abs (m : BufMap) (a b : Nat) (hab : a < b) (hb : b ≤ m.size) (P L R C K : List Run) (c0 : Colour)
+    (nie : Bool)
+    (hvirt : ∀ x, x < m.size → m.abs x = colourAt (P ++ (a, c0) :: (L ++ R)) Colour.recved x)
+    (hsV : Sorted (P ++ (a, c0) :: (L ++ R))) (hszV : ∀ r ∈ P ++ (a, c0) :: (L ++ R), r.1 < m.size)
+    (hc0 : c0 = Colour.flighting ∨ c0 = Colour.lost)
+    (hL : ∀ r ∈ L, r.1 < b ∧ (r.2 = Colour.flighting ∨ r.2 = Colour.lost))
+    (hcase : (R = [] ∧ C = [] ∧ K = [] ∧ nie = (decide (b < m.size) && lastCol L c0 == Colour.flighting)) ∨
+       (∃ o R' R'', R = (o, Colour.recved) :: R' ∧ C = (o, Colour.recved) :: R'' ∧ K = [] ∧ o < b ∧ nie = false ∧
+          Sorted R'' ∧ (∀ r ∈ R'', r.1 < m.size) ∧ (∀ lb, (∀ r ∈ R', lb < r.1) → ∀ r ∈ R'', lb < r.1) ∧
+          (∀ p x, x < m.size → colourAt R'' p x
+            = if x < b then colourAt (R'.map lostRun) p x else colourAt R' p x)) ∨
+       (∃ c R', R = (b, c) :: R' ∧ R = K ++ C ∧ nie = false) ∨
+       (∃ o c R', R = (o, c) :: R' ∧ b < o ∧ C = R ∧ K = [] ∧ nie = (lastCol L c0 == Colour.flighting))) :
+    Sorted (P ++ (a, Colour.lost) :: (K ++ ((if nie then [(b, lastCol L c0)] else []) ++ C))) ∧
+    (∀ r ∈ P ++ (a, Colour.lost) :: (K ++ ((if nie then [(b, lastCol L c0)] else []) ++ C)), r.1 < m.size) ∧
+    ∀ x, BufMap.abs { m with runs := P ++ (a, Colour.lost) :: (K ++ ((if nie then [(b, lastCol L c0)] else []) ++ C)) } x
+      = setRange m.abs a b lostOf x := by
+  have hlc : lastCol ((a, c0) :: L) Colour.recved = lastCol L c0 := lastCol_cons _ _ _
+  -- commute `K` and the optional end (one of them is empty)
+  have hKC : K ++ ((if nie then [(b, lastCol L c0)] else []) ++ C)
+      = (if nie = true then [(b, lastCol ((a, c0) :: L) Colour.recved)] else []) ++ (K ++ C) := by
+    rw [hlc]
+    rcases hcase with ⟨_, _, hK, _⟩ | ⟨_, _, _, _, _, hK, _⟩ | ⟨_, _, _, _, hn⟩ | ⟨_, _, _, _, _, _, hK, _⟩
+    · subst hK; simp
+    · subst hK; simp
+    · subst hn; simp
+    · subst hK; simp
+  have hcase' : (R = [] ∧ K ++ C = [] ∧
+        nie = (decide (b < m.size) && lastCol ((a, c0) :: L) Colour.recved == Colour.flighting)) ∨
+      (∃ o R' R'', R = (o, Colour.recved) :: R' ∧ K ++ C = (o, Colour.recved) :: R'' ∧ o < b ∧ nie = false ∧
+        Sorted R'' ∧ (∀ r ∈ R'', r.1 < m.size) ∧ (∀ lb, (∀ r ∈ R', lb < r.1) → ∀ r ∈ R'', lb < r.1) ∧
+        (∀ p x, x < m.size → colourAt R'' p x
+          = if x < b then colourAt (R'.map lostRun) p x else colourAt R' p x)) ∨
+      (∃ c R', R = (b, c) :: R' ∧ K ++ C = R ∧ nie = false) ∨
+      (∃ o c R', R = (o, c) :: R' ∧ b < o ∧ K ++ C = R ∧
+        nie = (lastCol ((a, c0) :: L) Colour.recved == Colour.flighting)) := by
+    rw [hlc]
+    rcases hcase with ⟨h1, h2, h3, h4⟩ | ⟨o, R', R'', h1, h2, h3, h4⟩ | ⟨c, R', h1, h2, h3⟩ |
+      ⟨o, c, R', h1, h2, h3, h4, h5⟩
+    · subst h2 h3; exact Or.inl ⟨h1, rfl, h4⟩
+    · subst h2 h3; exact Or.inr (Or.inl ⟨o, R', R'', h1, rfl, h4⟩)
+    · exact Or.inr (Or.inr (Or.inl ⟨c, R', h1, h2.symm, h3⟩))
+    · subst h3 h4; exact Or.inr (Or.inr (Or.inr ⟨o, c, R', h1, h2, rfl, h5⟩))
+  rw [loss_sorted_append] at hsV
+  obtain ⟨hsP, hsVr, hPV⟩ := hsV
+  have hL' : ∀ r ∈ (a, c0) :: L, r.1 < b ∧ (r.2 = Colour.flighting ∨ r.2 = Colour.lost) := by
+    intro r hr
+    simp only [List.mem_cons] at hr
+    rcases hr with rfl | hr
+    · exact ⟨hab, hc0⟩
+    · exact hL r hr
+  obtain ⟨t1, t2, t3, t4⟩ := loss_tail_ok m.size b hb ((a, c0) :: L) R (K ++ C) nie hL' hsVr
+    (fun r hr => hszV r (by simp at hr ⊢; exact Or.inr hr)) hcase'
+  have htk : (((a, c0) :: L).map toLost).take 1 = [(a, Colour.lost)] := by simp [toLost]
+  rw [htk, ← hKC] at t1 t2 t3 t4
+  simp only [List.singleton_append] at t1 t2 t3 t4
+  generalize (a, Colour.lost) :: (K ++ ((if nie then [(b, lastCol L c0)] else []) ++ C)) = res at *
+  have hPres : ∀ r1 ∈ P, ∀ r2 ∈ res, r1.1 < r2.1 :=
+    fun r1 h1 r2 h2 => t3 r1.1 (fun r hr => hPV r1 h1 r hr) r2 h2
+  refine ⟨loss_sorted_append.mpr ⟨hsP, t1, hPres⟩, ?_, ?_⟩
+  · intro r hr
+    rw [List.mem_append] at hr
+    rcases hr with h | h
+    · exact hszV r (by simp [h])
+    · exact t2 r h
+  · intro x
+    by_cases hx : x < m.size
+    · have e1 : BufMap.abs { m with runs := P ++ res } x = colourAt (P ++ res) Colour.recved x := by
+        simp [BufMap.abs, hx]
+      rw [e1]
+      simp only [setRange, hvirt x hx]
+      rw [colourAt_append _ _ _ _ (fun r1 h1 r2 h2 => Nat.le_of_lt (hPres r1 h1 r2 h2)),
+        colourAt_append P _ _ _ (fun r1 h1 r2 h2 => Nat.le_of_lt (hPV r1 h1 r2 h2)), t4 _ x hx]
+      by_cases hxb : x < b
+      · by_cases hax : a ≤ x
+        · have hxa : ¬ x < a := by omega
+          rw [if_pos hxb, if_pos ⟨hax, hxb⟩]
+          simp only [List.cons_append, List.map_cons, lostRun, colourAt, hxa, if_false]
+          exact colourAt_map_lostRun _ c0 x
+        · have h1 : ¬ (a ≤ x ∧ x < b) := fun h => hax h.1
+          have hxa : x < a := by omega
+          rw [if_pos hxb, if_neg h1]
+          simp only [List.cons_append, List.map_cons, lostRun, colourAt, hxa, if_true]
+      · have h1 : ¬ (a ≤ x ∧ x < b) := fun h => hxb h.2
+        rw [if_neg hxb, if_neg h1]
+        rfl
+    · have h1 : m.abs x = Colour.pending := abs_of_ge m x (by omega)
+      have h2 : BufMap.abs { m with runs := P ++ res } x = Colour.pending :=
+        abs_of_ge _ x (by show m.size ≤ x; omega)
+      rw [h2]
+      simp only [setRange, h1]
+      split <;> rfl
+
 -- OPEN: `mayLoss_refines` (the top-level theorem) is not proved.  What is missing:
 --   (1) the three branches of `mayLoss` that only call `mayLostFrom` (`Ok(idx)` on a `Recved` run, `Err(0)`,
 --       `Err(idx)` after a `Recved` run) follow from `mayLostFrom_abs` + `lowerBound_spec` (hypotheses `hP1 hP2 hR`
